@@ -11,7 +11,7 @@ pub fn def() -> PropDef {
     PropDef {
         info: PropInfo {
             id: "C14",
-            rule: "strings from three generators: (a) token soup over the assembler alphabet - mnemonics, registers with 1-40 digit numbers, decimal and hexadecimal literals of 1-80 digits with every sign combination, the extreme values around 2^63 and 2^64, brackets, commas, truncated operands; (b) arbitrary Unicode strings; (c) valid texts from the C13 generator with 1-3 character-level mutations. Oracle: assemble() returns under catch_unwind (Ok or Err); inputs are at most a few KiB so the work is bounded; a single call slower than 2 s is reported as inconclusive, not as a violation. Non-trivial = input containing a numeric literal of >= 19 digits, a sign, or a bracket; distinct by hash.",
+            rule: "strings from three generators: (a) token soup over the assembler alphabet - mnemonics, registers with 1-40 digit numbers, identifiers of up to 80 Unicode letters/digits of 1-4 bytes each, decimal and hexadecimal literals of 1-80 digits with every sign combination, the extreme values around 2^63 and 2^64, brackets, commas, truncated operands; (b) arbitrary Unicode strings; (c) valid texts from the C13 generator with 1-3 character-level mutations. Oracle: assemble() returns under catch_unwind (Ok or Err); inputs are at most a few KiB so the work is bounded; a single call slower than 2 s is reported as inconclusive, not as a violation. Non-trivial = input containing a numeric literal of >= 19 digits, a sign, or a bracket; distinct by hash.",
             assumptions: &["a panic anywhere below assemble() unwinds (the harness is built with panic=unwind)"],
         },
         run,
@@ -61,12 +61,25 @@ fn number() -> impl Strategy<Value = String> {
     ]
 }
 
+/// identifiers made of Unicode letters/digits of 1-4 bytes each, up to 80 characters (the parser's
+/// notion of an identifier is "alphanumeric", not "ASCII")
+fn unicode_ident() -> impl Strategy<Value = String> {
+    let ch = prop_oneof![
+        3 => prop::sample::select(vec!['a', 'z', 'x', 'r', '0', '9', 'j', 'e']),
+        2 => prop::sample::select(vec!['\u{e9}', '\u{df}', '\u{3a9}', '\u{416}', '\u{661}']),
+        2 => prop::sample::select(vec!['\u{4e2d}', '\u{3042}', '\u{0e01}', '\u{ff21}']),
+        1 => prop::sample::select(vec!['\u{1d400}', '\u{10400}', '\u{1d7ce}']),
+    ];
+    prop::collection::vec(ch, 1..80).prop_map(|v| v.into_iter().collect())
+}
+
 fn token() -> impl Strategy<Value = String> {
     let mn: Vec<String> = crate::isa::mnemonics().into_iter().map(|m| m.0).collect();
     prop_oneof![
         4 => prop::sample::select(mn),
         4 => number(),
         3 => digits(40).prop_map(|d| format!("r{d}")),
+        2 => unicode_ident(),
         2 => (digits(30), number()).prop_map(|(r, n)| format!("[r{r}{n}]")),
         1 => (digits(30), number()).prop_map(|(r, n)| format!("[r{r}+{n}")),
         1 => digits(3).prop_map(|r| format!("[r{r}]")),
